@@ -108,7 +108,7 @@ pub fn generate(seed: u64) -> Vec<Ev> {
                 let mut staged = tables.clone();
                 let mut used: Vec<usize> = vec![];
                 for _ in 0..n {
-                    let kind = r.weighted(&[14, 18, 8, 8, 6, 6, 6, 6, 5, 5, 5, 5, 4, 4, 5]);
+                    let kind = r.weighted(&[14, 18, 8, 8, 6, 6, 6, 6, 5, 5, 5, 5, 4, 4, 5, 8]);
                     // each table is (re)defined at most once per submission
                     let free: Vec<usize> = (0..staged.len()).filter(|i| !used.contains(i)).collect();
                     if free.is_empty() && kind != 0 {
@@ -134,7 +134,7 @@ pub fn generate(seed: u64) -> Vec<Ev> {
                         }
                         1 => {
                             next_col += 1;
-                            let decl = r.pick(&["TEXT", "INTEGER", "TEXT NOT NULL DEFAULT 'd'", "INTEGER NOT NULL DEFAULT 7", "REAL DEFAULT 1.5", "BLOB"]).to_string();
+                            let decl = r.pick(&["TEXT", "INTEGER", "TEXT NOT NULL DEFAULT 'd'", "INTEGER NOT NULL DEFAULT 7", "REAL DEFAULT 1.5", "BLOB", "VARCHAR(16)", "VARCHAR(16)"]).to_string();
                             staged[ti].cols.push(Col { name: format!("c{next_col}"), decl });
                             sub.extend(staged[ti].sql());
                             intent.push("add-column");
@@ -229,6 +229,19 @@ pub fn generate(seed: u64) -> Vec<Ev> {
                             sub.extend(t.sql());
                             intent.push("FORBIDDEN-foreign-key");
                         }
+                        15 => {
+                            // an edit that keeps name, type name, nullability, default and key of an
+                            // existing column: type length, collation or a check constraint
+                            let mut t = staged[ti].clone();
+                            if let Some(c) = t.cols.iter_mut().find(|c| c.decl.starts_with("VARCHAR(16)")) {
+                                c.decl = c.decl.replacen("VARCHAR(16)", "VARCHAR(64)", 1);
+                            } else if let Some(c) = t.cols.iter_mut().find(|c| c.decl.starts_with("TEXT")) {
+                                let (head, tail) = c.decl.split_at(4);
+                                c.decl = if r.chance(0.5) { format!("{head}{tail} COLLATE NOCASE") } else { format!("{head}{tail} CHECK (length({}) >= 0)", c.name) };
+                            }
+                            sub.extend(t.sql());
+                            intent.push("FORBIDDEN-change-column-definition-detail");
+                        }
                         13 => {
                             let t = staged[ti].clone();
                             let mut s = t.sql();
@@ -322,7 +335,7 @@ async fn snapshot(n: &Node) -> R<Snapshot> {
         s.tables
             .iter()
             .map(|(name, t)| {
-                let mut cols: Vec<String> = t.columns.iter().map(|(c, col)| format!("{c}:{}:{}:{:?}:{}", col.sql_type.1.clone().unwrap_or_default(), col.nullable, col.default_value, col.primary_key)).collect();
+                let mut cols: Vec<String> = t.columns.iter().map(|(c, col)| format!("{c}:{}:{}:{:?}:{}:{:?}", col.sql_type.1.clone().unwrap_or_default(), col.nullable, col.default_value, col.primary_key, col.raw)).collect();
                 cols.sort();
                 let mut idx: Vec<String> = t.indexes.iter().map(|(k, ix)| format!("index:{k}:{:?}:{:?}", ix.columns, ix.where_clause)).collect();
                 idx.sort();
@@ -341,7 +354,7 @@ fn schema_from_db(n: &Node, conn: &rusqlite::Connection) -> R<BTreeMap<String, V
     Ok(s.tables
         .iter()
         .map(|(name, t)| {
-            let mut cols: Vec<String> = t.columns.iter().map(|(c, col)| format!("{c}:{}:{}:{:?}:{}", col.sql_type.1.clone().unwrap_or_default(), col.nullable, col.default_value, col.primary_key)).collect();
+            let mut cols: Vec<String> = t.columns.iter().map(|(c, col)| format!("{c}:{}:{}:{:?}:{}:{:?}", col.sql_type.1.clone().unwrap_or_default(), col.nullable, col.default_value, col.primary_key, col.raw)).collect();
             cols.sort();
             let mut idx: Vec<String> = t.indexes.iter().map(|(k, ix)| format!("index:{k}:{:?}:{:?}", ix.columns, ix.where_clause)).collect();
             idx.sort();
